@@ -767,9 +767,20 @@ class PairedHistory(Family):
             S = mk_obj(st, "sparse")
             tags, bad, changed = ["both", f"start-N{len(st['shape'])}"], None, False
             accepted = 0
+            ref = start_oracle(st, "sparse")
             for i, op in enumerate(c["ops"]):
                 if op["key"]["k"] == "region" and (is_d10(op["key"]) or (op["op"] == "read" and has_repeated_list(op["key"]))):
                     continue  # listed findings, exercised in dense_history / sparse_history
+                # only operations of the property's domain (the oracle accepts them) drive the pair
+                try:
+                    probe = ref.copy()
+                    if op["op"] == "write":
+                        probe.write(op["key"], op["rhs"])
+                    else:
+                        probe.read(op["key"])
+                except Reject:
+                    tags.append("skipped:out-of-domain")
+                    continue
                 snapD, snapS = copy.deepcopy(D), copy.deepcopy(S)
                 res = []
                 for x, cls in ((D, "dense"), (S, "sparse")):
@@ -787,6 +798,7 @@ class PairedHistory(Family):
                     tags.append("skipped:" + ("both" if res[0] is None and res[1] is None else "one"))
                     continue
                 accepted += 1
+                ref = probe
                 if op["op"] == "write":
                     sd, ss = dense_state(D), sparse_state(S)
                     if sparse_wf(ss):
